@@ -52,11 +52,18 @@ func AsciiValue(r R) string {
 	return Pick(r, atoms)
 }
 
-// KVs draws n pairs from a name pool with repeats.
+// names whose byte length changes under lower-casing or that are not valid UTF-8
+var oddNames = []string{"\xff", "\u212a", "É", "é", "a\xffb", "ſ"}
+
+// KVs draws n pairs from a name pool with repeats (now and then a non-ASCII / non-UTF-8 name).
 func KVs(r R, names []string, n int) []sl.KV {
 	out := make([]sl.KV, 0, n)
 	for i := 0; i < n; i++ {
-		out = append(out, sl.KV{K: Pick(r, names), V: Value(r)})
+		k := Pick(r, names)
+		if Chance(r, 0.04) {
+			k = Pick(r, oddNames)
+		}
+		out = append(out, sl.KV{K: k, V: Value(r)})
 	}
 	return out
 }
